@@ -151,22 +151,28 @@ def reader_cases(ctx, seed, count, binpath=None, bin_sample=60):
     codes = cde.eval_cases(ctx, "simple", "simple_case", "check_simple", texts,
                            header="Require Import Json SimpleRead CorrSimple.\nOpen Scope string_scope.\nOpen Scope list_scope.")
     recs = [{"kind": k, "doc": doc, "impl": e, "code": c, "file": l["file"]} for (k, doc), e, c, l in zip(docs, impl, codes, lst)]
-    # the real binary on a sample: refused (65) exactly when the model does not accept the document
+    # the real binary on a sample: refused (65) exactly when the model does not accept the document; and on every document on which
+    # model and implementation disagree (the search for a failing input when the correspondence breaks)
     if binpath:
         rng = random.Random(seed + 1)
-        sample = rng.sample(range(len(recs)), min(bin_sample, len(recs)))
-        from concurrent.futures import ThreadPoolExecutor
-
-        def work(i):
-            outp = os.path.join(d, "out_%05d.json" % i)
-            if os.path.exists(outp):
-                os.remove(outp)
-            r = clirun.run_bin(binpath, ["--num-threads", "1", recs[i]["file"], outp], timeout=120)
-            return i, (1000 if r["timeout"] else r["rc"]), r["stderr"][-300:], os.path.exists(outp)
-        with ThreadPoolExecutor(max_workers=16) as ex:
-            for i, rc_, err_, ex_ in ex.map(work, sample):
-                recs[i]["bin"] = {"exit": rc_, "stderr": err_, "out_exists": ex_}
+        sample = set(rng.sample(range(len(recs)), min(bin_sample, len(recs))))
+        sample |= set([i for i, r in enumerate(recs) if not (r["code"] & BIT["agree"])][:40])
+        run_binary(d, recs, sorted(sample), binpath)
     return recs
+
+
+def run_binary(d, recs, idxs, binpath):
+    from concurrent.futures import ThreadPoolExecutor
+
+    def work(i):
+        outp = os.path.join(d, "out_%05d.json" % i)
+        if os.path.exists(outp):
+            os.remove(outp)
+        r = clirun.run_bin(binpath, ["--num-threads", "1", recs[i]["file"], outp], timeout=120)
+        return i, (1000 if r["timeout"] else r["rc"]), r["stderr"][-300:], os.path.exists(outp)
+    with ThreadPoolExecutor(max_workers=16) as ex:
+        for i, rc_, err_, ex_ in ex.map(work, idxs):
+            recs[i]["bin"] = {"exit": rc_, "stderr": err_, "out_exists": ex_}
 
 
 def classify(recs):
@@ -194,7 +200,7 @@ def classify(recs):
                     viol.append(("C15: the program hangs on an input document", r))
                 else:
                     st["resource_limit_skipped"] += 1
-            elif (c & BIT["agree"]) and not (c & BIT["accepted"]) and (b["exit"] != 65 or b["out_exists"]):
+            elif not (c & BIT["accepted"]) and (b["exit"] != 65 or b["out_exists"]):
                 viol.append(("C15: a document that is not a well-formed instance (SimpleRead.simple_accepts = false) is not refused with status 65 "
                              "(exit %s, output file %s)" % (b["exit"], "exists" if b["out_exists"] else "absent"), r))
             elif (c & BIT["agree"]) and (c & BIT["accepted"]) and b["exit"] not in (0, 1):
